@@ -985,7 +985,20 @@ class IMAPClientCommand:
 
         # Reference mailbox name
         #
+        # NOTE: `_p_mailbox()` normalizes the name which drops a trailing
+        #       hierarchy delimiter. In a LIST reference that delimiter is
+        #       significant: reference `a/` and pattern `%` list the children
+        #       of `a`, not the mailboxes whose names begin with `a`.
+        #
+        before_ref = self.input
         self.mailbox_name = self._p_mailbox()
+        ref_text = before_ref[: len(before_ref) - len(self.input)]
+        if (
+            self.mailbox_name
+            and not self.mailbox_name.endswith("/")
+            and ref_text.rstrip('"').endswith("/")
+        ):
+            self.mailbox_name += "/"
         self._p_simple_string(" ")
 
         # Mailbox pattern(s): either a single list-mailbox or a
